@@ -39,6 +39,16 @@ type Event struct {
 	Invoke   bool    // interface method call
 }
 
+// Access is a read of shared memory (not an effect): field/pointer loads and map reads, with the
+// number of events before it so that lock state at the access can be recovered.
+type Access struct {
+	Kind  string // load lookup maprange maplen
+	Addr  *Term  // load: address; map reads: the map value
+	Instr ssa.Instruction
+	NEv   int
+	NCond int
+}
+
 type EndKind int
 
 const (
@@ -61,6 +71,8 @@ type Path struct {
 	Blocks  []int                 // block indices visited
 	Env     map[ssa.Value]*Term   // final environment
 	LoopIn  map[*ssa.BasicBlock]map[*ssa.Phi]*Term // loopvar terms per header entered
+	Acc     []Access
+	LoopAt  map[*ssa.BasicBlock]int // number of events when the header was entered
 }
 
 // FuncPaths holds all paths of one function.
@@ -95,6 +107,8 @@ type pstate struct {
 	occ     map[string]int
 	defers  []Event
 	loopIn  map[*ssa.BasicBlock]map[*ssa.Phi]*Term
+	acc     []Access
+	loopAt  map[*ssa.BasicBlock]int
 }
 
 func (s *pstate) clone() *pstate {
@@ -129,6 +143,11 @@ func (s *pstate) clone() *pstate {
 	n.events = append([]Event(nil), s.events...)
 	n.blocks = append([]int(nil), s.blocks...)
 	n.defers = append([]Event(nil), s.defers...)
+	n.acc = append([]Access(nil), s.acc...)
+	n.loopAt = make(map[*ssa.BasicBlock]int, len(s.loopAt))
+	for k, v := range s.loopAt {
+		n.loopAt[k] = v
+	}
 	return n
 }
 
@@ -245,7 +264,7 @@ func (an *Analysis) computePaths2(fn *ssa.Function, subst, substV map[int]*Term)
 		w.loopW[h] = w.loopEffects(h)
 	}
 	st := &pstate{env: map[ssa.Value]*Term{}, mem: map[string]*Term{}, memCls: map[string]string{}, epoch: map[string]int{},
-		onpath: map[*ssa.BasicBlock]bool{}, occ: map[string]int{}, loopIn: map[*ssa.BasicBlock]map[*ssa.Phi]*Term{}}
+		onpath: map[*ssa.BasicBlock]bool{}, occ: map[string]int{}, loopIn: map[*ssa.BasicBlock]map[*ssa.Phi]*Term{}, loopAt: map[*ssa.BasicBlock]int{}}
 	func() {
 		defer func() {
 			if r := recover(); r != nil {
@@ -321,6 +340,7 @@ func (w *walker) walk(b *ssa.BasicBlock, from *ssa.BasicBlock, st *pstate) {
 	st.onpath[b] = true
 	st.blocks = append(st.blocks, b.Index)
 	if w.headers[b] {
+		st.loopAt[b] = len(st.events)
 		// entering a loop: forget what its body may write
 		es := w.loopW[b]
 		if es.all {
@@ -486,7 +506,7 @@ func stripNot(t *Term, pol bool) (*Term, bool) {
 }
 
 func (w *walker) finish(st *pstate, end EndKind) *Path {
-	p := &Path{Fn: w.fn, Conds: st.conds, Events: st.events, End: end, Blocks: st.blocks, Env: st.env, LoopIn: st.loopIn}
+	p := &Path{Fn: w.fn, Conds: st.conds, Events: st.events, End: end, Blocks: st.blocks, Env: st.env, LoopIn: st.loopIn, Acc: st.acc, LoopAt: st.loopAt}
 	w.out.Paths = append(w.out.Paths, p)
 	return p
 }
@@ -554,28 +574,26 @@ func (w *walker) load(st *pstate, addr *Term, typ types.Type) *Term {
 			return fieldOf(whole, addr.Obj.(*types.Var), typ)
 		}
 	}
-	// whole value of a local struct with field-level stores: rebuild
+	// whole value of an allocated struct with field-level entries: rebuild
 	if addr.Op == "alloc" {
 		if stt, ok := derefStruct(addr.Typ); ok {
 			var fs []*Term
 			any := false
 			for i := 0; i < stt.NumFields(); i++ {
 				f := stt.Field(i)
-				fa := &Term{Op: "faddr", Args: []*Term{addr}, Obj: f, Typ: types.NewPointer(f.Type())}
-				if fv, ok := st.mem[fa.Key()]; ok {
-					fs = append(fs, fv)
+				fa := &Term{Op: "faddr", Args: []*Term{addr}, Obj: f.Origin(), Typ: types.NewPointer(f.Type())}
+				if _, ok := st.mem[fa.Key()]; ok {
 					any = true
-				} else {
-					fs = append(fs, zeroOf(f.Type()))
 				}
 			}
-			if any || isFreshLocal(addr) {
+			if any {
+				for i := 0; i < stt.NumFields(); i++ {
+					f := stt.Field(i)
+					fa := &Term{Op: "faddr", Args: []*Term{addr}, Obj: f.Origin(), Typ: types.NewPointer(f.Type())}
+					fs = append(fs, w.load(st, fa, f.Type()))
+				}
 				return &Term{Op: "struct", Typ: typ, Args: fs, Val: addr.Val}
 			}
-		}
-		if isFreshLocal(addr) {
-			// never stored: zero value
-			return zeroOf(typ)
 		}
 	}
 	cls := w.memClass(addr)
@@ -664,26 +682,25 @@ func (w *walker) store(st *pstate, addr, val *Term) {
 			delete(st.memCls, mk)
 		}
 	}
-	if strings.HasPrefix(cls, "l:") {
-		// precise: only this location and overlapping ones of the same local
-		if addr.Op == "faddr" {
-			// a field store makes a cached whole-value stale: fold it into field entries
-			base := addr.Args[0]
-			if whole, ok := st.mem[base.Key()]; ok {
-				if stt, ok2 := derefStruct(base.Typ); ok2 {
-					for i := 0; i < stt.NumFields(); i++ {
-						f := stt.Field(i)
-						fa := &Term{Op: "faddr", Args: []*Term{base}, Obj: f, Typ: types.NewPointer(f.Type())}
-						if _, has := st.mem[fa.Key()]; !has {
-							st.mem[fa.Key()] = fieldOf(whole, f, f.Type())
-							st.memCls[fa.Key()] = cls
-						}
+	if addr.Op == "faddr" {
+		// a field store makes a cached whole-value stale: fold it into field entries
+		base := addr.Args[0]
+		if whole, ok := st.mem[base.Key()]; ok {
+			if stt, ok2 := derefStruct(base.Typ); ok2 {
+				for i := 0; i < stt.NumFields(); i++ {
+					f := stt.Field(i).Origin()
+					fa := &Term{Op: "faddr", Args: []*Term{base}, Obj: f, Typ: types.NewPointer(f.Type())}
+					if _, has := st.mem[fa.Key()]; !has {
+						st.mem[fa.Key()] = fieldOf(whole, f, f.Type())
+						st.memCls[fa.Key()] = w.memClass(fa)
 					}
 				}
-				delete(st.mem, base.Key())
-				delete(st.memCls, base.Key())
 			}
+			delete(st.mem, base.Key())
+			delete(st.memCls, base.Key())
 		}
+	}
+	if strings.HasPrefix(cls, "l:") {
 		st.epoch[cls]++
 	} else {
 		st.invalidate(cls)
@@ -701,6 +718,11 @@ func (w *walker) step(st *pstate, in ssa.Instruction, b *ssa.BasicBlock, idx int
 			t.Sym = "heap"
 		}
 		st.env[x] = t
+		// a fresh cell holds the zero value
+		if p, ok := x.Type().Underlying().(*types.Pointer); ok {
+			st.mem[t.Key()] = zeroOf(p.Elem())
+			st.memCls[t.Key()] = w.memClass(t)
+		}
 	case *ssa.MakeSlice:
 		c := w.val(st, x.Cap)
 		st.env[x] = &Term{Op: "mkslice", Val: x, Typ: x.Type(), Args: []*Term{w.val(st, x.Len), c}}
@@ -749,6 +771,9 @@ func (w *walker) step(st *pstate, in ssa.Instruction, b *ssa.BasicBlock, idx int
 				lt.Val = x
 			}
 			st.env[x] = lt
+			if !strings.HasPrefix(w.memClass(a), "l:") {
+				st.acc = append(st.acc, Access{Kind: "load", Addr: a, Instr: x, NEv: len(st.events), NCond: len(st.conds)})
+			}
 		case token.ARROW:
 			k := "recv " + a.Key()
 			st.occ[k]++
@@ -782,6 +807,9 @@ func (w *walker) step(st *pstate, in ssa.Instruction, b *ssa.BasicBlock, idx int
 			t.Sym = "commaok"
 		}
 		st.env[x] = t
+		if _, isMap := x.X.Type().Underlying().(*types.Map); isMap {
+			st.acc = append(st.acc, Access{Kind: "lookup", Addr: m, Instr: x, NEv: len(st.events), NCond: len(st.conds)})
+		}
 	case *ssa.Slice:
 		arg := func(v ssa.Value) *Term {
 			if v == nil {
@@ -806,6 +834,9 @@ func (w *walker) step(st *pstate, in ssa.Instruction, b *ssa.BasicBlock, idx int
 	case *ssa.Range:
 		st.env[x] = &Term{Op: "range", Val: x, Args: []*Term{w.val(st, x.X)}, Typ: x.Type()}
 		st.events = append(st.events, Event{Kind: "range", Instr: x, Addr: w.val(st, x.X), NCond: len(st.conds)})
+		if _, isMap := x.X.Type().Underlying().(*types.Map); isMap {
+			st.acc = append(st.acc, Access{Kind: "maprange", Addr: w.val(st, x.X), Instr: x, NEv: len(st.events), NCond: len(st.conds)})
+		}
 	case *ssa.Next:
 		it := w.val(st, x.Iter)
 		k := "next " + it.Key()
@@ -1126,3 +1157,4 @@ func storesTo(v ssa.Value) int {
 	}
 	return n
 }
+
